@@ -7,7 +7,7 @@
     from outside).  [run false sched (init root)] is the state after the schedule (flag [false] = the
     repaired TaskManager.Create).  The log is newest-first: in [a ++ e :: b], [b] is what happened
     before [e]. *)
-From GC Require Import Common.Base Model.Runner Proofs.Runner Proofs.Runner2.
+From GC Require Import Common.Base Model.Runner Proofs.Runner Proofs.Runner2 Proofs.C14More.
 Local Open Scope nat_scope.
 
 (** BodyBegin of a task is preceded by [Finished u true] for every [u] of its wait list
@@ -188,3 +188,242 @@ Example C14_nested_wait_deadlock :
   map (fun t => (t_name t, t_st t)) (tasks s) = [(1%N, Running 0 (PSpawned 2%N)); (2%N, Waiting 0)]
   /\ step false (LTask 1%N) s = None /\ step false (LTask 2%N) s = None.
 Proof. repeat split; vm_compute; reflexivity. Qed.
+
+(** * Proof audit: ordering, outcomes, liveness (lemmas in Proofs/C14More.v) *)
+
+(** ORDER.  When a command of [n] begins, the body of [n] has begun before and, before that, every
+    task of the wait list of [n] finished without error; [n] has not finished.  (Strengthens
+    [C14_cmd_in_body], which only says that the BodyBegin event is somewhere in the log.) *)
+Theorem C14_cmd_after_prereqs : forall root sched a n j b,
+  let s := run false sched (init root) in
+  log s = a ++ ECmdBegin n j :: b ->
+  exists t, find_task n (tasks s) = Some t /\ In (EBodyBegin n (t_waits t)) b
+            /\ (forall u, In u (t_waits t) -> In (EFinished u true) b)
+            /\ (forall ok, ~ In (EFinished n ok) b).
+Proof. exact cmd_after_prereqs. Qed.
+Print Assumptions C14_cmd_after_prereqs.
+
+(** A command ends only after it began. *)
+Theorem C14_cmd_end_after_begin : forall root sched a n j ok b,
+  log (run false sched (init root)) = a ++ ECmdEnd n j ok :: b -> In (ECmdBegin n j) b.
+Proof. exact cmdend_after_begin. Qed.
+Print Assumptions C14_cmd_end_after_begin.
+
+(** Once a task has finished nothing of it happens any more: whatever event other than a
+    submission result is in the log, the task it belongs to had not finished before. *)
+Theorem C14_nothing_after_finish : forall root sched a e b,
+  log (run false sched (init root)) = a ++ e :: b -> is_sub e = false ->
+  forall ok, ~ In (EFinished (ev_name e) ok) b.
+Proof. exact nothing_after_finish. Qed.
+Print Assumptions C14_nothing_after_finish.
+
+(** A body begins at most once and before every command of its task. *)
+Theorem C14_body_begins_once : forall root sched a n ws b,
+  log (run false sched (init root)) = a ++ EBodyBegin n ws :: b ->
+  forall e, In e b -> ev_name e = n -> is_sub e = true.
+Proof. exact body_begins_once. Qed.
+Print Assumptions C14_body_begins_once.
+
+(** OUTCOME.  A task one of whose commands ended with an error has an error in its context, can
+    only finish failed, and begins no command after that one. *)
+Theorem C14_failed_cmd_fails_task : forall root sched n t i,
+  let s := run false sched (init root) in
+  find_task n (tasks s) = Some t -> In (ECmdEnd n i false) (log s) ->
+  ctx_failed (t_ctx t) s = true /\ (forall ok, t_st t = Finished ok -> ok = false)
+  /\ (forall j, In (ECmdBegin n j) (log s) -> j <= i).
+Proof. exact failed_cmd_fails_task. Qed.
+Print Assumptions C14_failed_cmd_fails_task.
+
+(** A task that finished without error began its body and ran its WHOLE script: every command
+    began and ended without error, none ended with an error. *)
+Theorem C14_success_ran_all : forall root sched n t,
+  let s := run false sched (init root) in
+  find_task n (tasks s) = Some t -> t_st t = Finished true ->
+  In (EBodyBegin n (t_waits t)) (log s)
+  /\ (forall i, i < length (t_body t) -> In (ECmdBegin n i) (log s) /\ In (ECmdEnd n i true) (log s))
+  /\ (forall i, ~ In (ECmdEnd n i false) (log s)).
+Proof. exact success_ran_all. Qed.
+Print Assumptions C14_success_ran_all.
+
+(** Any subset of failing tasks: a task whose script has a failing command at position [i] never
+    ends that command without error, never begins a later command, and can only finish failed. *)
+Theorem C14_failing_command : forall root sched n t i,
+  let s := run false sched (init root) in
+  find_task n (tasks s) = Some t -> nth_error (t_body t) i = Some CFail ->
+  ~ In (ECmdEnd n i true) (log s)
+  /\ (forall j, i < j -> ~ In (ECmdBegin n j) (log s))
+  /\ (forall ok, t_st t = Finished ok -> ok = false).
+Proof. exact failing_command. Qed.
+Print Assumptions C14_failing_command.
+
+(** NO DEADLOCK, premise weakened to what pip:run can express: nested submissions may wait, but
+    only for tasks submitted by EARLIER commands of the same body ([sib_body], at every depth).
+    Supersedes [C14_accept_finishes_no_deadlock]: [C14_siblings_cover_flat]. *)
+Theorem C14_no_deadlock_siblings : forall root sched,
+  sib_sched sched ->
+  let s := run false sched (init root) in
+  all_finished s = false -> exists n, step false (LTask n) s <> None.
+Proof. exact no_deadlock_sib. Qed.
+Print Assumptions C14_no_deadlock_siblings.
+
+Theorem C14_siblings_cover_flat : forall sched, flat_sched sched -> sib_sched sched.
+Proof. exact flat_sib_sched. Qed.
+Print Assumptions C14_siblings_cover_flat.
+
+(** Without any premise on nested wait lists the statement is FALSE: a nested task submitted through
+    the Go API may name its spawner; the submission is accepted and then no runner goroutine can
+    ever move (the real TaskManager/Runner do the same: checked with a scratch test; pip:run cannot
+    express this submission). *)
+Theorem C14_no_deadlock_unrestricted_refuted :
+  let s := run false [LCreate {| s_name := 1%N; s_waits := []; s_body := [CSpawn 2%N [1%N] [COk]] |} 11%N;
+                      LTask 1%N; LTask 1%N; LTask 1%N] (init 0%N) in
+  all_finished s = false /\ (forall n, step false (LTask n) s = None) /\ mgr_wait s = None
+  /\ In (ESubmitted 2%N true) (log s).
+Proof. exact nested_wait_refuted. Qed.
+Print Assumptions C14_no_deadlock_unrestricted_refuted.
+
+(** LIVENESS (no fairness assumption).  From every reachable state there is a run of at most
+    [work s] steps of runner goroutines, every one of them enabled when taken, after which every
+    task has finished, the manager's Wait returns, and every accepted submission - from outside or
+    nested - has its Finished event.  With [C14_accept_finishes_bounded] (no runner schedule
+    executes more than [work s] steps): a scheduler that keeps taking enabled runner steps ends,
+    and by [C14_stuck_is_finished] it ends there. *)
+Theorem C14_accept_finishes_live : forall root sched,
+  sib_sched sched ->
+  let s := run false sched (init root) in
+  exists sched', forallb is_ltask sched' = true /\ length sched' <= work s
+    /\ effective sched' s = length sched'
+    /\ let s' := run false sched' s in
+       all_finished s' = true /\ mgr_wait s' <> None
+       /\ forall n, In (ESubmitted n true) (log s') -> exists ok, In (EFinished n ok) (log s').
+Proof. exact accept_finishes_live. Qed.
+Print Assumptions C14_accept_finishes_live.
+
+Theorem C14_stuck_is_finished : forall root sched,
+  sib_sched sched ->
+  let s := run false sched (init root) in
+  (forall n, step false (LTask n) s = None) ->
+  all_finished s = true /\ mgr_wait s <> None
+  /\ forall n, In (ESubmitted n true) (log s) -> exists ok, In (EFinished n ok) (log s).
+Proof. exact stuck_is_finished. Qed.
+Print Assumptions C14_stuck_is_finished.
+
+(** A task with a failed prerequisite DOES end, failed, and without having run. *)
+Theorem C14_failed_prereq_ends_failed : forall root sched n t u,
+  sib_sched sched ->
+  let s := run false sched (init root) in
+  find_task n (tasks s) = Some t -> In u (t_waits t) -> In (EFinished u false) (log s) ->
+  exists sched', forallb is_ltask sched' = true /\ length sched' <= work s /\
+    let s' := run false sched' s in
+    (exists t', find_task n (tasks s') = Some t' /\ t_st t' = Finished false)
+    /\ (forall ws, ~ In (EBodyBegin n ws) (log s')) /\ (forall i, ~ In (ECmdBegin n i) (log s')).
+Proof. exact failed_prereq_ends_failed. Qed.
+Print Assumptions C14_failed_prereq_ends_failed.
+
+(** A rejected submission leaves nothing behind (general form of [C14_F21_fixed]), and a submission
+    that names an unregistered task, or itself, is rejected (converse of [C14_accept_existing]). *)
+Theorem C14_reject_no_residue : forall sb c p s s',
+  create false sb c p s = (s', false) ->
+  tasks s' = tasks s /\ counter s' = counter s /\ failed s' = failed s
+  /\ log s' = ESubmitted (s_name sb) false :: log s.
+Proof. exact reject_no_residue. Qed.
+Print Assumptions C14_reject_no_residue.
+
+Theorem C14_reject_unknown : forall sb c p s u,
+  In u (s_waits sb) -> registered u (tasks s) = false \/ u = s_name sb ->
+  snd (create false sb c p s) = false.
+Proof. exact reject_unknown. Qed.
+Print Assumptions C14_reject_unknown.
+
+(** * Non-vacuity of the audit theorems *)
+
+(** hypotheses of the ordering theorems: the demo log contains a command of task 5 (wait list [4]),
+    a BodyBegin and a failed command end *)
+Example demo_order_hyps :
+  let s := run false demo (init 0%N) in
+  (exists a b, log s = a ++ ECmdBegin 5%N 0 :: b) /\ (exists a b, log s = a ++ ECmdEnd 3%N 1 false :: b)
+  /\ (exists a b, log s = a ++ EBodyBegin 5%N [4%N] :: b) /\ is_sub (ECmdBegin 5%N 0) = false.
+Proof.
+  cbv zeta. split; [|split; [|split; [|reflexivity]]]; apply in_split; vm_compute; find_in.
+Qed.
+
+(** task 3 has a failing command at position 1 and it ended with an error; task 4 finished
+    without error with a script of two commands *)
+Example demo_outcome_hyps :
+  let s := run false demo (init 0%N) in
+  (exists t, find_task 3%N (tasks s) = Some t /\ nth_error (t_body t) 1 = Some CFail
+             /\ In (ECmdEnd 3%N 1 false) (log s) /\ t_st t = Finished false)
+  /\ (exists t, find_task 4%N (tasks s) = Some t /\ t_st t = Finished true /\ length (t_body t) = 2).
+Proof.
+  cbv zeta. split; eexists; (split; [vm_compute; reflexivity|]).
+  - split; [reflexivity|]. split; [vm_compute; find_in | reflexivity].
+  - split; reflexivity.
+Qed.
+
+(** a schedule that is sibling-only but not flat: task 1 spawns 2, then 3 which waits for 2;
+    task 4 (from outside) waits for 1.  After three steps 1 waits for 2: not finished, work 25+. *)
+Definition sS : subm :=
+  {| s_name := 1%N; s_waits := []; s_body := [CSpawn 2%N [] [COk]; CSpawn 3%N [2%N] [COk; COk]; COk] |}.
+Definition sW : subm := {| s_name := 4%N; s_waits := [1%N]; s_body := [COk] |}.
+Definition demo2 : list label := [LCreate sS 11%N; LTask 1%N; LTask 1%N; LTask 1%N; LCreate sW 12%N].
+
+Lemma sib_sched_list : forall sched,
+  forallb (fun l => match l with LCreate sb _ => sib_body (s_body sb) | _ => true end) sched = true ->
+  sib_sched sched.
+Proof.
+  intros sched H sb c Hin. rewrite forallb_forall in H. exact (H _ Hin).
+Qed.
+
+Example demo2_sib : sib_sched demo2 /\ flat_body (s_body sS) = false.
+Proof. split; [apply sib_sched_list|]; vm_compute; reflexivity. Qed.
+
+Example demo2_state :
+  let s := run false demo2 (init 0%N) in
+  map (fun t => (t_name t, t_st t)) (tasks s)
+  = [(1%N, Running 0 (PSpawned 2%N)); (2%N, Waiting 0); (4%N, Waiting 0)]
+  /\ all_finished s = false /\ step false (LTask 2%N) s <> None /\ step false (LTask 4%N) s = None.
+Proof. cbv zeta. repeat split; vm_compute; congruence. Qed.
+
+(** the run promised by [C14_accept_finishes_live] for that state, spelled out *)
+Example demo2_live :
+  let s := run false demo2 (init 0%N) in
+  let sched' := rr 2 5 ++ rr 1 3 ++ rr 3 8 ++ rr 1 5 ++ rr 4 6 in
+  forallb is_ltask sched' = true /\ effective sched' s = length sched' /\ length sched' <= work s
+  /\ map (fun t => (t_name t, t_st t)) (tasks (run false sched' s))
+     = [(1%N, Finished true); (2%N, Finished true); (4%N, Finished true); (3%N, Finished true)]
+  /\ mgr_wait (run false sched' s) = Some false.
+Proof. cbv zeta. repeat split; vm_compute; try reflexivity. repeat constructor. Qed.
+
+(** a stuck state exists: the final state of demo *)
+Lemma all_finished_stuck : forall s, all_finished s = true -> forall n, step false (LTask n) s = None.
+Proof.
+  intros s Ha n. simpl. destruct (find_task n (tasks s)) as [t|] eqn:E; [|reflexivity].
+  apply find_task_some in E as [_ Hin]. unfold all_finished in Ha. rewrite forallb_forall in Ha.
+  specialize (Ha _ Hin). unfold task_step. destruct (t_st t); try discriminate Ha. reflexivity.
+Qed.
+
+Example demo_stuck : sib_sched demo /\ forall n, step false (LTask n) (run false demo (init 0%N)) = None.
+Proof.
+  split; [apply flat_sib_sched; apply demo_flat|]. apply all_finished_stuck. vm_compute. reflexivity.
+Qed.
+
+(** hypotheses of [C14_failed_prereq_ends_failed]: in the demo, before task 2 has moved, its
+    prerequisite 1 has finished failed *)
+Definition demo_pre : list label :=
+  [LCreate sA 11%N; LCreate sB 12%N; LCreate sC 13%N; LCreate sD 14%N] ++ rr 1 5 ++ rr 4 2 ++ rr 3 6 ++ rr 1 3.
+Example demo_failed_prereq_hyps :
+  let s := run false demo_pre (init 0%N) in
+  sib_sched demo_pre
+  /\ (exists t, find_task 2%N (tasks s) = Some t /\ In 1%N (t_waits t) /\ t_st t = Waiting 0)
+  /\ In (EFinished 1%N false) (log s).
+Proof.
+  cbv zeta. split; [apply sib_sched_list; vm_compute; reflexivity|]. split.
+  - eexists. split; [vm_compute; reflexivity|]. split; [left; reflexivity | reflexivity].
+  - vm_compute. find_in.
+Qed.
+
+(** a rejected submission that names an unregistered task *)
+Example demo_reject :
+  snd (create false f21_sub 7%N None (init 0%N)) = false
+  /\ In 2%N (s_waits f21_sub) /\ registered 2%N (tasks (init 0%N)) = false.
+Proof. repeat split; vm_compute; auto. Qed.
